@@ -29,6 +29,7 @@ Section Trie.
 Variable c : N.          (* chunk size *)
 Variable b : nat.        (* branching *)
 Variable size : N.       (* file size: bound on every sum *)
+Variable proc : N -> N.  (* what the stages do to Data[:8]; irrelevant because args.Span is forwarded *)
 Let bN := N.of_nat b.
 Hypothesis Hc : 2 <= c.
 Hypothesis Hb : (2 <= b)%nat.
@@ -137,12 +138,12 @@ Lemma write_gen : forall ls i sp,
   AllFull i ls -> (i + length ls = 8)%nat -> ls <> [] ->
   0 < sp <= F i -> tot ls + sp <= size ->
   exists ls' em fl,
-    write_levels b (S i) ls sp = Ok (ls', em, fl) /\
+    write_levels p_span proc b (S i) ls sp = Ok (ls', em, fl) /\
     Shape i ls' /\ tot ls' = tot ls + sp /\ Forall egood em /\ length ls' = length ls.
 Proof.
   induction ls as [|l up IH]; intros i sp Ha Hlen Hne Hsp Htot; [congruence|].
   destruct Ha as (Hf & Hl & Hup). cbn [tot] in Htot. cbn [length] in Hlen.
-  cbn [write_levels]. rewrite app_length. cbn [length].
+  cbn [write_levels p_span short_pipeline]. rewrite app_length. cbn [length].
   assert (Hgood : good_lvl i (l ++ [sp])) by (exists l, sp; auto).
   destruct (Nat.eqb_spec (length l + 1) b) as [Hwrap|Hno].
   - (* wrap *)
@@ -178,13 +179,13 @@ Lemma write_full : forall ls i,
   AllFull i ls -> (i + length ls = 8)%nat ->
   tot ls + F i <= size ->
   exists ls' em,
-    write_levels b (S i) ls (F i) = Ok (ls', em, false) /\
+    write_levels p_span proc b (S i) ls (F i) = Ok (ls', em, false) /\
     AllFull i ls' /\ tot ls' = tot ls + F i /\ Forall egood em /\ length ls' = length ls.
 Proof.
   induction ls as [|l up IH]; intros i Ha Hlen Htot.
   - cbn [length] in Hlen. assert (Ei : i = 8%nat) by lia. subst i. cbn [tot] in Htot. pose proof (F_mono 7 8 ltac:(lia)). lia.
   - destruct Ha as (Hf & Hl & Hup). cbn [tot] in Htot. cbn [length] in Hlen.
-    cbn [write_levels]. rewrite app_length. cbn [length].
+    cbn [write_levels p_span short_pipeline]. rewrite app_length. cbn [length].
     assert (Hfull' : full_lvl i (l ++ [F i])).
     { apply Forall_app. split; [exact Hf|]. constructor; auto. }
     destruct (Nat.eqb_spec (length l + 1) b) as [Hwrap|Hno].
@@ -224,7 +225,7 @@ Proof. destruct l; [congruence|reflexivity]. Qed.
 Lemma sum_phase : forall n i ls,
   Shape i ls -> (i + length ls = 8)%nat -> (S n = length ls)%nat -> tot ls <= size ->
   exists ls' em fl,
-    sum_levels n b (S i) ls = Ok (ls', em, fl) /\ Forall egood em /\ last ls' [] = [tot ls].
+    sum_levels p_span proc n b (S i) ls = Ok (ls', em, fl) /\ Forall egood em /\ last ls' [] = [tot ls].
 Proof.
   induction n as [|n IH]; intros i ls Hsh Hlen Hn Htot.
   - (* only the top level is left *)
@@ -266,7 +267,7 @@ Proof.
         assert (Hlen2 : (2 <= length l)%nat) by (subst l; cbn [length app]; rewrite app_length; cbn; lia).
         unfold sum_action.
         destruct (length l) as [|[|m]] eqn:Elen; try lia.
-        unfold wrap_level.
+        unfold wrap_level. cbn [p_span short_pipeline].
         assert (Hsl : sumN l <= size) by (cbn [tot] in Htot; lia).
         rewrite (sum64_eq l) by lia.
         assert (Hgl : good_lvl i l) by (exists (y :: l'), t; auto).
@@ -303,7 +304,7 @@ Definition TInv (t : trie) : Prop :=
 
 Lemma feed_full : forall m t,
   TInv t -> tot (t_levels t) + N.of_nat m * c <= size ->
-  exists t', trie_feed b t (repeat c m) = Ok t' /\ TInv t' /\
+  exists t', trie_feed p_span proc b t (repeat c m) = Ok t' /\ TInv t' /\
              tot (t_levels t') = tot (t_levels t) + N.of_nat m * c.
 Proof.
   induction m as [|m IH]; intros t Hinv Htot.
@@ -320,11 +321,11 @@ Proof.
 Qed.
 
 Lemma trie_feed_app : forall a t d,
-  trie_feed b t (a ++ d) =
-  match trie_feed b t a with Ok t' => trie_feed b t' d | Err => Err | Panic => Panic | Hang => Hang end.
+  trie_feed p_span proc b t (a ++ d) =
+  match trie_feed p_span proc b t a with Ok t' => trie_feed p_span proc b t' d | Err => Err | Panic => Panic | Hang => Hang end.
 Proof.
   induction a as [|x a IH]; intros t d; cbn [app trie_feed]; [reflexivity|].
-  destruct (trie_write b t x); auto.
+  destruct (trie_write p_span proc b t x); auto.
 Qed.
 
 Lemma AllFull_init : AllFull 0 (repeat [] 8).
@@ -335,7 +336,7 @@ Proof. cbn. repeat split; try constructor; lia. Qed.
     root_refs(span) references *)
 Theorem trie_agree :
   0 < size ->
-  exists em, trie_run b (leaf_spans c size) = Ok (size, em) /\ Forall egood em.
+  exists em, trie_run p_span proc b (leaf_spans c size) = Ok (size, em) /\ Forall egood em.
 Proof.
   intros Hpos. unfold trie_run, leaf_spans.
   remember (size / c) as q eqn:Eq. remember (size mod c) as r eqn:Er.
